@@ -1,18 +1,16 @@
 """C48 Configuration files mean the same to go-git and git (DESIGN.md §4.C48)."""
 import os
 import subprocess
-from concurrent.futures import ThreadPoolExecutor
 from vf.core import Suite, coq_list
 from vf.gen import rbytes, rlen, pick_weighted, all_strings
 
 ID = "C48"
-THEOREMS = ["C48_stub"]
-THEOREMS_REAL = ["C48_git_reads_ours", "C48_git_reads_ours_nonvacuous",
+THEOREMS = ["C48_git_reads_ours", "C48_git_reads_ours_nonvacuous",
             "C48_bool_eq_true_refuted", "C48_bool_eq_true_partial", "C48_bool_eq_true_sound",
             "C48_bool_ne_false_refuted", "C48_bool_ne_false_partial",
             "C48_bool_fold_true_refuted", "C48_bool_fold_true_partial",
             "C48_bool_parsebool_refuted", "C48_bool_parsebool_partial",
-            "C48_bool_configbool_refuted", "C48_bool_configbool_partial",
+            "C48_bool_configbool_refuted", "C48_bool_configbool_partial", "C48_bool_configbool_partial_num",
             "C48_bool_valueless_refuted",
             "C48_int_window_refuted", "C48_int_window_partial"]
 MODEL_FILES = ["ConfigEnc.v"]
@@ -45,42 +43,92 @@ GIT_ENV = dict(os.environ, GIT_CONFIG_NOSYSTEM="1", HOME="/nonexistent", LC_ALL=
 
 # ------------------------------------------------------------------ git side
 
-def git_list_file(path):
-    """-> list of (name bytes, value bytes|None) or None if git rejects the file"""
-    p = subprocess.run(["/usr/bin/git", "config", "--file", path, "--list", "--null"], stdout=subprocess.PIPE,
-                       stderr=subprocess.PIPE, env=GIT_ENV, timeout=30)
-    if p.returncode != 0:
-        return None
-    out = []
-    for rec in p.stdout.split(b"\0")[:-1]:
+def parse_list(out):
+    res = []
+    for rec in out.split(b"\0")[:-1]:
         if b"\n" in rec:
             n, v = rec.split(b"\n", 1)
-            out.append((n, v))
+            res.append((n, v))
         else:
-            out.append((rec, None))
-    return out
+            res.append((rec, None))
+    return res
+
+
+def git_batch(d, jobs):
+    """jobs: {key: (path, extra git-config args)} -> {key: (rc, stdout bytes)}.
+    All git processes are started from four small /bin/sh scripts (spawning from the big python process is slow)."""
+    keys = list(jobs)
+    procs = []
+    for w in range(4):
+        part = keys[w::4]
+        if not part:
+            continue
+        sp = os.path.join(d, "run%d.sh" % w)
+        with open(sp, "w") as f:
+            for k in part:
+                path, args = jobs[k]
+                f.write("/usr/bin/git config --file '%s' %s >'%s.out' 2>/dev/null; echo $? >'%s.rc'\n" % (path, args, path, path))
+        procs.append(subprocess.Popen(["/bin/sh", sp], env=GIT_ENV, cwd=d, stdout=subprocess.DEVNULL, stderr=subprocess.DEVNULL))
+    for p in procs:
+        p.wait(timeout=600)
+    res = {}
+    for k in keys:
+        path = jobs[k][0]
+        try:
+            rc = int(open(path + ".rc").read().strip() or "1")
+            out = open(path + ".out", "rb").read()
+        except (OSError, ValueError):
+            rc, out = 1, b""
+        res[k] = (rc, out)
+    return res
 
 
 def git_list_many(ctx, blobs, tag):
-    """blobs: {id: bytes} -> {id: entries|None}, 8 git processes in parallel"""
+    """blobs: {id: bytes} -> {id: [(name, value|None)] or None if git rejects the file}"""
     d = os.path.join(ctx.tmp, tag)
     os.makedirs(d, exist_ok=True)
-    paths = {}
+    jobs = {}
     for i, b in blobs.items():
-        paths[i] = os.path.join(d, "f%s" % i)
-        with open(paths[i], "wb") as f:
+        p = os.path.join(d, "f%s" % i)
+        with open(p, "wb") as f:
             f.write(b)
-    with ThreadPoolExecutor(max_workers=8) as ex:
-        res = list(ex.map(lambda i: (i, git_list_file(paths[i])), list(paths)))
-    return dict(res)
+        jobs[i] = (p, "--list --null")
+    return {i: (parse_list(out) if rc == 0 else None) for i, (rc, out) in git_batch(d, jobs).items()}
 
 
-def git_typed(path, typ, key):
-    p = subprocess.run(["/usr/bin/git", "config", "--file", path, "--type=" + typ, "--get", key], stdout=subprocess.PIPE,
-                       stderr=subprocess.PIPE, env=GIT_ENV, timeout=30)
-    if p.returncode != 0:
-        return None
-    return p.stdout.decode().strip()
+SEP = b"[zzsep]\n\tn = %d\n"
+
+
+def git_list_concat(ctx, blobs, tag, solo=()):
+    """like git_list_many, but 16 files per git process: the texts are concatenated with a marker section after each
+    (git starts slowly on a busy machine).  Sound only for texts that start with a section header and end at top level
+    — true of everything the encoder emits; anything else makes the group fall back to one process per file, and
+    the callers re-check every failing case alone."""
+    ids = [i for i in blobs if i not in solo and b"\0" not in blobs[i] and (blobs[i] == b"" or (blobs[i][:1] == b"[" and blobs[i][-1:] == b"\n"))]
+    res = {}
+    groups = [ids[k:k + 16] for k in range(0, len(ids), 16)]
+    big = git_list_many(ctx, {n: b"".join(blobs[i] + SEP % i for i in g) for n, g in enumerate(groups)}, tag + "-cat")
+    for n, g in enumerate(groups):
+        ents = big[n]
+        parts, cur, ok = {}, [], ents is not None
+        if ok:
+            k = 0
+            for name, v in ents:
+                if name == b"zzsep.n":
+                    if k < len(g) and v == str(g[k]).encode():
+                        parts[g[k]] = cur
+                        cur, k = [], k + 1
+                    else:
+                        ok = False
+                        break
+                else:
+                    cur.append((name, v))
+            ok = ok and k == len(g) and not cur
+        if ok:
+            res.update(parts)
+    rest = {i: blobs[i] for i in blobs if i not in res}
+    res.update(git_list_many(ctx, rest, tag))
+    return res
 
 
 def group(entries):
@@ -192,21 +240,28 @@ def gen_subname(rng, bucket=None):
     return bytes(rng.choice([c for c in range(1, 128) if c != 10]) for _ in range(max(n, 1)))
 
 
-def coq_pair(a, b):
-    return "(%s, %s)" % (a, b)
+def coq_chunks(h):
+    """hex text -> Coq `list string` of short literals (a long string literal costs quadratic parse time in Coq 8.16)"""
+    if isinstance(h, bytes):
+        h = h.hex()
+    return coq_clist(['"%s"' % h[i:i + 16] for i in range(0, len(h), 16)], 1)
 
 
-def coq_hexs(h):
-    return '"%s"' % h
+def coq_clist(items, level):
+    """explicit cons/nil term (C1/N1 string, C2/N2 list string, C3/N3 list (list string)): list notations elaborate slowly when nested"""
+    t = "N%d" % level
+    for x in reversed(items):
+        t = "(C%d %s %s)" % (level, x, t)
+    return t
 
 
 class Encode(Suite):
     name = "encode"
     go_cmd = "c48"
     coq_imports = "From GoGit Require Import Model.ConfigEnc."
-    quick_n = 260
-    thorough_n = 4000
-    coq_chunk = 40
+    quick_n = 200
+    thorough_n = 3000
+    coq_chunk = 110
 
     def gen_opts(self, rng, vb=None):
         return [[rng.choice(KEYS).hex(), gen_value(rng, vb).hex()] for _ in range(pick_weighted(rng, [(2, 0), (3, 1), (3, 2), (2, 3), (1, 5)]))]
@@ -251,13 +306,12 @@ class Encode(Suite):
         return cases
 
     def model_expr(self, c):
-        def opts(o):
-            return coq_list([coq_pair(coq_hexs(k), coq_hexs(v)) for k, v in o])
-        secs = []
-        for s in c["secs"]:
-            subs = coq_list([coq_pair(coq_hexs(ss["n"]), opts(ss["o"])) for ss in s["s"]])
-            secs.append("(%s, %s, %s)" % (coq_hexs(s["n"]), opts(s["o"]), subs))
-        return "c48_encode %s" % coq_list(secs)
+        conts = []
+        for sec in c["secs"]:
+            conts.append(coq_clist(['(C1 "s" N1)', coq_chunks(sec["n"])] + [coq_chunks(x) for kv in sec["o"] for x in kv], 2))
+            for ss in sec["s"]:
+                conts.append(coq_clist(['(C1 "u" N1)', coq_chunks(ss["n"])] + [coq_chunks(x) for kv in ss["o"] for x in kv], 2))
+        return "c48_encode %s" % coq_clist(conts, 3)
 
     def parts(self, c):
         names, keys, vals, subs = [], [], [], []
@@ -305,7 +359,10 @@ class Encode(Suite):
                 continue
             if self.names_ok(c):
                 blobs[c["id"]] = bytes.fromhex(r["out"][1:])
-        got = git_list_many(ctx, blobs, "enc")
+        solo = {c["id"] for c in cases if any(b"\n" in b for b in self.parts(c)[3])}
+        got = git_list_concat(ctx, blobs, "enc", solo)
+        suspects = {c["id"]: blobs[c["id"]] for c in cases if c["id"] in blobs and (got[c["id"]] is None or group(got[c["id"]]) != self.expected(c))}
+        got.update(git_list_many(ctx, suspects, "enc-solo"))      # a failing case is always re-read alone
         self.git_seen = got
         for c in cases:
             i = c["id"]
@@ -360,7 +417,7 @@ class Encode(Suite):
 
     def extra(self, ctx, cases, impl, model):
         # C-git: S on the bytes go-git wrote vs the git binary
-        ids = [c["id"] for c in cases if c["id"] in getattr(self, "git_seen", {})][:250]
+        ids = [c["id"] for c in cases if c["id"] in getattr(self, "git_seen", {})][:(140 if ctx.tier == "quick" else 100000)]
         return spec_vs_git(ctx, {i: bytes.fromhex(impl[i]["out"][1:]) for i in ids}, {i: self.git_seen[i] for i in ids}, "encode")
 
 
@@ -372,7 +429,7 @@ def render_entries(entries):
 
 def spec_vs_git(ctx, blobs, git, tag):
     ids = [i for i in blobs if 0 not in blobs[i]]
-    outs = ctx.coq_eval("From GoGit Require Import Spec.GitConfig.", ['c48_spec_parse "%s"' % blobs[i].hex() for i in ids], chunk=50)
+    outs = ctx.coq_eval("From GoGit Require Import Model.ConfigEnc Spec.GitConfig.", ['c48_spec_parse %s' % coq_chunks(blobs[i]) for i in ids], chunk=140)
     bad = 0
     for i, o in zip(ids, outs):
         want = render_entries(git[i])
@@ -519,8 +576,8 @@ def file_features(f):
 class Decode(Suite):
     name = "decode"
     go_cmd = "c48"
-    quick_n = 500
-    thorough_n = 8000
+    quick_n = 320
+    thorough_n = 6000
 
     def gen(self, rng, n, tier):
         cases = []
@@ -644,7 +701,7 @@ class Decode(Suite):
         return None
 
     def extra(self, ctx, cases, impl, model):
-        ids = [c["id"] for c in cases][:600]
+        ids = [c["id"] for c in cases][:(420 if ctx.tier == "quick" else 100000)]
         ev = spec_vs_git(ctx, {i: bytes.fromhex(cases[i]["file"]) for i in ids}, self.git_seen, "decode")
         ev["git_accepted"] = sum(1 for c in cases if self.git_seen.get(c["id"]) is not None)
         ev["git_accepted_with_entries"] = sum(1 for c in cases if self.git_seen.get(c["id"]))
@@ -681,9 +738,9 @@ class Interp(Suite):
     name = "interp"
     go_cmd = "c48"
     coq_imports = "From GoGit Require Import Model.ConfigEnc."
-    quick_n = 300
-    thorough_n = 3000
-    coq_chunk = 60
+    quick_n = 240
+    thorough_n = 2500
+    coq_chunk = 130
 
     def mk(self, kind, v, bucket):
         hdr, key, _, _ = KINDS[kind]
@@ -708,24 +765,23 @@ class Interp(Suite):
         return cases
 
     def model_expr(self, c):
-        return 'c48_interp "%s" %s' % (c["kind"], "None" if c["v"] is None else '(Some "%s")' % c["v"])
+        return 'c48_interp "%s" %s' % (c["kind"], "None" if c["v"] is None else '(Some %s)' % coq_chunks(c["v"]))
 
     def oracle(self, ctx, cases, impl, model):
         """where git gives the setting a meaning, go-git gives it the same one"""
         d = os.path.join(ctx.tmp, "interp")
         os.makedirs(d, exist_ok=True)
+        # git's reading depends only on the value and on bool / int: one process per distinct (type, value)
         uniq = {}
         for c in cases:
-            uniq.setdefault((c["kind"], c["file"]), []).append(c["id"])
-
-        def ask(kf):
-            kind, fh = kf
-            p = os.path.join(d, "f%d" % abs(hash(kf)))
+            uniq.setdefault((KINDS[c["kind"]][3], c["v"]), []).append(c["id"])
+        jobs = {}
+        for n, (typ, vh) in enumerate(uniq):
+            p = os.path.join(d, "f%d" % n)
             with open(p, "wb") as f:
-                f.write(bytes.fromhex(fh))
-            return kf, git_typed(p, KINDS[kind][3], GITKEY[kind])
-        with ThreadPoolExecutor(max_workers=8) as ex:
-            ans = dict(ex.map(ask, list(uniq)))
+                f.write(b"[t]\n\tk" + (b"" if vh is None else b" = " + py_quote(bytes.fromhex(vh))) + b"\n")
+            jobs[(typ, vh)] = (p, "--type=%s --get t.k" % typ)
+        ans = {kf: (out.decode().strip() if rc == 0 else None) for kf, (rc, out) in git_batch(d, jobs).items()}
         self.git_ans = {i: ans[kf] for kf, ids in uniq.items() for i in ids}
         fails = {}
         for c in cases:
@@ -758,11 +814,11 @@ class Interp(Suite):
             seen.add((c["kind"] == "window", c["v"]))
             g = self.git_ans[c["id"]]
             if c["kind"] == "window":
-                exprs.append('c48_spec_int64 "%s"' % c["v"])
+                exprs.append('c48_spec_int64 %s' % coq_chunks(c["v"]))
             else:
-                exprs.append('c48_spec_bool "%s"' % c["v"])
+                exprs.append('c48_spec_bool %s' % coq_chunks(c["v"]))
             want.append("none" if g is None else "( some %s )" % g)
-        outs = ctx.coq_eval("From GoGit Require Import Spec.GitConfig.", exprs, chunk=50)
+        outs = ctx.coq_eval("From GoGit Require Import Model.ConfigEnc Spec.GitConfig.", exprs, chunk=200)
         bad = 0
         for e, o, w in zip(exprs, outs, want):
             if o != w:
@@ -784,8 +840,8 @@ def gen_text(rng, kind="any"):
 class Marshal(Suite):
     name = "marshal"
     go_cmd = "c48"
-    quick_n = 120
-    thorough_n = 1500
+    quick_n = 80
+    thorough_n = 1200
 
     def gen(self, rng, n, tier):
         cases = []
@@ -854,7 +910,14 @@ class Marshal(Suite):
                 fails[c["id"]] = "marshal failed"
                 continue
             blobs[c["id"]] = bytes.fromhex(ex["bytes"])
-        got = git_list_many(ctx, blobs, "mar")
+        got = git_list_concat(ctx, blobs, "mar")
+
+        def bad(c):
+            if got[c["id"]] is None:
+                return True
+            g = group(got[c["id"]])
+            return any(g.get(k) != vs for k, vs in self.expected(c).items())
+        got.update(git_list_many(ctx, {c["id"]: blobs[c["id"]] for c in cases if c["id"] in blobs and bad(c)}, "mar-solo"))
         for c in cases:
             i = c["id"]
             if i not in blobs:
